@@ -459,6 +459,10 @@ func distFamily(env *Env) error {
 		}
 		if relCases && ev.Kind == "ok" && (len(c.R) == 0 || c.R[0] < 0) && len(c.Rows) > 0 && len(c.Rows[0]) > 0 {
 			ws := []int{ng % 6, 5} // one relation in turn, and always the row permutation
+			if len(c.Rows) >= 3 && len(c.Rows[0]) >= 7 {
+				// the alignments of the option cube (gap runs, ambiguity codes, with and without weights): every relation
+				ws = []int{1, 2, 3, 4, 5, ng % 6}
+			}
 			if (c.O.Model == "pdist" || c.O.Model == "rawdist") && c.O.GapMode == 2 {
 				// every gap counted: unlike the internal-gap mode this one does not depend on column order
 				ws = []int{ng % 6, 5, 1, 2, 4}
